@@ -16,6 +16,7 @@ package genql
 import (
 	"crypto/sha256"
 	"encoding/hex"
+	"encoding/json"
 	"fmt"
 	"math"
 	"regexp"
@@ -1746,7 +1747,11 @@ func ExecDistinct(query *Query, current []any) ([]any, error) {
 	slice := make([]any, 0)
 	for _, item := range current {
 		sha256 := sha256.New()
-		_, err := sha256.Write([]byte(fmt.Sprintf("%v", item)))
+		fingerprint, err := json.Marshal(item)
+		if err != nil {
+			return nil, err
+		}
+		_, err = sha256.Write(fingerprint)
 		if err != nil {
 			return nil, err
 		}
